@@ -11,16 +11,17 @@ import (
 
 // Options controls an exploration.
 type Options struct {
-	MaxPreemptions int           // bounds 0..MaxPreemptions are explored in turn
-	MaxExecutions  int           // cap on the number of runs (0 = none)
-	Deadline       time.Duration // wall clock cap for the whole exploration (0 = none)
-	ShardK, ShardN int           // explore only the subtrees i with i%ShardN == ShardK (ShardN<=1: everything); see ShardDepth
-	ShardDepth     int           // DFS depth whose subtrees are dealt out to the shards: 1 = first-level subtrees, default 3 (better balance; the few nodes above that depth are re-run by every shard and reported by one)
-	MaxSteps       int           // per execution cap on fired transitions (default 1e6); exceeding it gives Outcome.StepLimit
-	DrainSteps     int           // cap on the steps used by the leak analysis after the main body returned (default 2000)
-	MaxExamples    int           // how many deadlock / panic examples to keep (default 10)
-	Sites          bool          // record the source position of every pending operation (" at file:line" in GInfo.Pending); Replay and process mode always do, Explore only on request because it costs about a third of the throughput
-	KeepGOMAXPROCS bool          // by default Explore runs with GOMAXPROCS(1): only one controlled goroutine runs at a time anyway, and hand-offs between goroutines are several times cheaper on a single P (essential when several shards share the machine)
+	MaxPreemptions int                          // bounds 0..MaxPreemptions are explored in turn
+	MaxExecutions  int                          // cap on the number of runs (0 = none)
+	Deadline       time.Duration                // wall clock cap for the whole exploration (0 = none)
+	ShardK, ShardN int                          // explore only the subtrees i with i%ShardN == ShardK (ShardN<=1: everything); see ShardDepth
+	ShardDepth     int                          // DFS depth whose subtrees are dealt out to the shards: 1 = first-level subtrees, default 3 (better balance; the few nodes above that depth are re-run by every shard and reported by one)
+	MaxSteps       int                          // per execution cap on fired transitions (default 1e6); exceeding it gives Outcome.StepLimit
+	DrainSteps     int                          // cap on the steps used by the leak analysis after the main body returned (default 2000)
+	MaxExamples    int                          // how many deadlock / panic examples to keep (default 10)
+	Sites          bool                         // record the source position of every pending operation (" at file:line" in GInfo.Pending); Replay and process mode always do, Explore only on request because it costs about a third of the throughput
+	OnSchedule     func(o *Outcome, points int) `json:"-"` // called once for every COUNTED schedule (each distinct schedule exactly once, at the bound equal to its preemption count; not for re-runs), with the full Outcome and the number of choice points of that execution. Called from the exploring goroutine (ExploreProcess: under the engine lock, one call at a time); must not call Explore/Replay
+	KeepGOMAXPROCS bool                         // by default Explore runs with GOMAXPROCS(1): only one controlled goroutine runs at a time anyway, and hand-offs between goroutines are several times cheaper on a single P (essential when several shards share the machine)
 }
 
 // BoundStat summarises one iteration of the preemption bound.
@@ -35,6 +36,8 @@ type BoundStat struct {
 // Report is the result of Explore / ExploreProcess.
 type Report struct {
 	Executions         int            // runs performed, all bounds together
+	TotalSteps         int64          // sum of Outcome.Steps over ALL executions (re-runs included)
+	TotalPoints        int64          // sum of the number of choice points over ALL executions (re-runs included)
 	Schedules          int            // distinct schedules explored (each counted once, at the bound equal to its preemption count)
 	BoundCompleted     int            // highest bound fully explored, -1 if none
 	Exhaustive         bool           // no cap was hit: every schedule with at most MaxPreemptions preemptions was run
@@ -103,6 +106,8 @@ func Merge(reps ...Report) Report {
 	m.Exhaustive, m.FullyExplored = true, true
 	for _, r := range reps {
 		m.Executions += r.Executions
+		m.TotalSteps += r.TotalSteps
+		m.TotalPoints += r.TotalPoints
 		m.Schedules += r.Schedules
 		if m.BoundCompleted == -2 || r.BoundCompleted < m.BoundCompleted {
 			m.BoundCompleted = r.BoundCompleted
@@ -315,6 +320,8 @@ func (e *engine) worker() {
 // finish records the execution and pushes its in-bound children.
 func (e *engine) finish(t task, tr *trace, plen int) {
 	e.rep.Executions++
+	e.rep.TotalSteps += int64(tr.out.Steps)
+	e.rep.TotalPoints += int64(len(tr.points))
 	e.stat.Runs++
 	sharded := e.opts.ShardN > 1
 	isNew := t.cost == e.bound && !t.mute
@@ -367,6 +374,10 @@ func (e *engine) finish(t task, tr *trace, plen int) {
 func (e *engine) record(tr *trace) {
 	o := tr.out
 	r := &e.rep
+	if e.opts.OnSchedule != nil {
+		oc := tr.out
+		e.opts.OnSchedule(&oc, len(tr.points))
+	}
 	r.Schedules++
 	e.stat.Schedules++
 	if len(tr.points) > r.MaxPoints {
